@@ -200,3 +200,51 @@ def check_alldiff_coverage(ctx: Ctx, oid: str):
     lits_loop = [n for n in own_nodes(ad.node) if isinstance(n, ast.If) and "in var.bool_vars" in ast.unparse(n.test)]
     ctx.ob(oid, "R12 NO-CARDINALITY-CUTOFF", ad, "for each value, every variable that can take it contributes its literal", len(lits_loop) == 1 and "lits.append(var.bool_vars[val])" in t_ad and "for var in variables" in t_ad, "", node=ad.node)
 
+
+
+def check_id_allocation(ctx: Ctx, oid: str):
+    """Fresh boolean ids: each counter has one writer besides its initialisation - the allocator, which hands out the
+    current value and advances by one.  Any other write can move a counter back onto ids already handed out."""
+    for mod, cls in (("cp_encoder", "SATEncoder"), ("cp", "Model")):
+        m = ctx.repo.module(mod)
+        writers = []
+        for q, f in sorted(m.funcs.items()):
+            if not q.startswith(cls + ".") or q.count(".") != 1:
+                continue
+            for n in ast.walk(f.node):
+                if isinstance(n, (ast.Assign, ast.AugAssign, ast.AnnAssign)):
+                    for t in n.targets if isinstance(n, ast.Assign) else [n.target]:
+                        for e in ast.walk(t):
+                            if isinstance(e, ast.Attribute) and e.attr == "_next_bool" and isinstance(e.ctx, ast.Store):
+                                writers.append((f, n))
+        names = sorted({f.name for f, _ in writers})
+        alloc = ctx.func(mod, f"{cls}._new_bool_var")
+        body = [ast.unparse(x) for x in alloc.node.body if not (isinstance(x, ast.Expr) and isinstance(x.value, ast.Constant))]
+        ok_alloc = body == ["v = self._next_bool", "self._next_bool += 1", "return v"]
+        bad = [(f, n) for f, n in writers if f.name not in ("__init__", "_new_bool_var")]
+        ctx.ob(oid, "R28 WRITER-DISCIPLINE", alloc, f"{cls}._next_bool is written only by its initialisation and by the allocator", not bad and {"__init__", "_new_bool_var"} <= set(names), f"writers {names}" + (f": `{ast.unparse(bad[0][1])}` in {bad[0][0].qualname} can move the counter onto ids that were already handed out (two SAT variables share one id)" if bad else ""), node=bad[0][1] if bad else alloc.node)
+        ctx.ob(oid, "R28 WRITER-DISCIPLINE", alloc, f"{cls}._new_bool_var returns the current id and advances the counter by one", ok_alloc, f"{body}", node=alloc.node)
+    # the encoder leaves the model as it found it: anything it stored there would be re-encoded by the next solve
+    m = ctx.repo.module("cp_encoder")
+    leaks = []
+    for q, f in sorted(m.funcs.items()):
+        if not q.startswith("SATEncoder."):
+            continue
+        for n in ast.walk(f.node):
+            tgt = None
+            if isinstance(n, (ast.Assign, ast.AugAssign, ast.AnnAssign)):
+                for t in n.targets if isinstance(n, ast.Assign) else [n.target]:
+                    if ast.unparse(t).startswith("self.model."):
+                        tgt = t
+            elif isinstance(n, ast.Call) and isinstance(n.func, ast.Attribute) and n.func.attr in ("append", "add", "update", "pop", "setdefault", "extend", "insert", "remove", "clear") and ast.unparse(n.func.value).startswith("self.model."):
+                tgt = n
+            if tgt is not None:
+                leaks.append((f, n))
+    enc = ctx.func("cp_encoder", "SATEncoder.solve")
+    ctx.ob(oid, "R27 WRITE-OWNERSHIP", leaks[0][0] if leaks else enc, "the encoder stores nothing in the model (every solve of a model encodes the same variables and constraints)", not leaks, f"`{ast.unparse(leaks[0][1])[:60]}`: what one solve leaves in the model is encoded again by the next, with literal ids that no longer belong to it" if leaks else "", node=leaks[0][1] if leaks else enc.node)
+    civ = ctx.func("cp_encoder", "SATEncoder._create_int_var")
+    t = ast.unparse(civ.node)
+    ctx.ob(oid, "R28 WRITER-DISCIPLINE", civ, "every value of an auxiliary integer variable gets its literal from the encoder's allocator", "for v in range(lb, ub + 1):\n        var.bool_vars[v] = self._new_bool_var()" in t and "var.bool_vars = {}" in t, "auxiliary literals taken from another counter can coincide with literals the encoder allocates itself", node=civ.node)
+    for n in ast.walk(ctx.repo.module("cp_encoder").tree):
+        if isinstance(n, ast.Call) and isinstance(n.func, ast.Attribute) and n.func.attr == "_new_bool_var" and ast.unparse(n.func.value) != "self":
+            ctx.ob(oid, "R28 WRITER-DISCIPLINE", civ, "the encoder allocates literals only from its own counter", False, f"`{ast.unparse(n)}`", node=n)
